@@ -84,6 +84,13 @@ def pre_reject(rng, hv):
     if hv is None or rng.random() < 0.5:
         return False
     hs = hv.hvsrs if isinstance(hv, hvsrpy.HvsrAzimuthal) else [hv]
+    if rng.random() < 0.4:
+        # the object's past is an earlier time-domain pass (other recordings / limits, same object handed along), after
+        # which the analyst narrowed the search range - some windows may have lost their peak by then
+        from .. import histories
+        histories.step_time_domain(rng, hv, hs[0].n_curves)
+        hv.update_peaks_bounded(search_range_in_hz=histories.rand_range(rng, hs[0].frequency))
+        return True
     for h in hs:
         for i in range(h.n_curves):
             if rng.random() < 0.3:
